@@ -286,7 +286,11 @@ static inline void parse_args(int argc, char **argv, args_t *a)
 	}
 	int stdin_closed = fcntl(0, F_GETFD) == -1;      /* the runner starts some workers without descriptor 0 */
 	if (a->progress) g_progress_fd = open(a->progress, O_WRONLY | O_CREAT, 0644);
-	if (stdin_closed) stat_add("process.started_with_fd0_closed", 1);
+	if (stdin_closed) {
+		/* keep descriptor 0 free for the code under test: move our own file out of the way */
+		if (g_progress_fd == 0) { g_progress_fd = fcntl(0, F_DUPFD, 10); close(0); }
+		stat_add("process.started_with_fd0_closed", 1);
+	}
 	setvbuf(stdout, NULL, _IOFBF, 1 << 16);
 }
 /* per-case seed: independent of how cases are split over processes */
